@@ -14,6 +14,7 @@ import ast
 import copy
 from typing import Callable, Optional
 
+from .astutil import clone as _clone
 from .consteval import UNKNOWN, ClassRef, FuncRef, Instance
 
 
@@ -189,7 +190,7 @@ class Interp:
 
 
 def _load(t):
-    t2 = copy.deepcopy(t)
+    t2 = _clone(t)
     for n in ast.walk(t2):
         if hasattr(n, "ctx"):
             n.ctx = ast.Load()
